@@ -82,12 +82,14 @@ inductive TErr
 deriving Repr, DecidableEq
 
 /-- `Recv::credit_consumed_by(offset, received, max_data)`;
-    outer `none` = `received + new_bytes` overflows u64 (checked build) -/
+    outer `none` = `received + new_bytes` overflows u64 (checked build) where the code adds unchecked; with
+    `checked_add(..).is_none_or(..)` (`Gen.creditOverflowIsError`) the overflow is the FLOW_CONTROL_ERROR
+    (`max_data` is a u64: values from 2^64 on do not occur) -/
 def Recv.creditConsumedBy (r : Recv) (offset received maxData : Nat) : Option (Except TErr Nat) :=
   let newBytes := Gen.creditNewBytes offset r.end_
   if Gen.creditOverStream offset r.sentMaxStreamData then some (.error (.flowControl ""))
   else match addU received newBytes with
-  | none => none
+  | none => if Gen.creditOverflowIsError && decide (maxData < 2 ^ 64) then some (.error (.flowControl "")) else none
   | some sum =>
     if Gen.creditOverConn sum maxData then some (.error (.flowControl "")) else some (.ok newBytes)
 
